@@ -55,6 +55,7 @@ func checkC15(c *Ctx) (string, error) {
 	checkReflectPruning(c, sp, bp, rfl)
 	checkTypeStrings(c, ap, rtabi, rfl)
 	checkPublicElemLinks(c, sp)
+	checkNamedNoExtraStar(c, ap)
 	checkDeepEqualSlice(c, rfl)
 	return "C15 (structural): descriptor layout contract (the structs lib/reflect reads through vs the value lists the compiler emits), kind numbering, preservation of names/tags/embedding through every type rebuild, soundness of the reflect-usage pruning (recognised names exist, each constructor flag retains its kind, dynamic method selection retains all methods), and agreement of the two type-string builders with reflect's spellings incl. the star-aware rendering of element types. NOT decided: the behaviour of the reflect port's algorithms (field search, DeepEqual, conversions, method calls) and fmt verb formatting - these are value-level.", nil
 }
@@ -335,7 +336,7 @@ func checkTypeStrings(c *Ctx, ap, rtabi, rfl *packages.Package) {
 }
 
 func init() {
-	addMutant(Mutant{Prop: "C15", Name: "map-elem-base-string", File: "ssa/abi/type.go", Old: "return \"map[\" + b.reflectTypeArgBaseString(t.Key()) + \"]\" + b.reflectTypeArgString(t.Elem())", New: "return \"map[\" + b.reflectTypeArgBaseString(t.Key()) + \"]\" + b.reflectTypeArgBaseString(t.Elem())", Expect: "R15.4 abi.Builder.reflectTypeArgBaseString Map element"})
+	addMutant(Mutant{Prop: "C15", Name: "map-elem-base-string", File: "ssa/abi/type.go", Old: "return \"map[\" + b.reflectTypeArgString(t.Key()) + \"]\" + b.reflectTypeArgString(t.Elem())", New: "return \"map[\" + b.reflectTypeArgString(t.Key()) + \"]\" + b.reflectTypeArgBaseString(t.Elem())", Expect: "R15.4 abi.Builder.reflectTypeArgBaseString Map element"})
 	addMutant(Mutant{Prop: "C15", Name: "rune-spelling", File: "ssa/abi/type.go", Old: "\t\tcase types.Rune:\n\t\t\treturn \"int32\"\n\t\t}\n\t\treturn t.String()\n\tcase *types.Pointer:", New: "\t\tcase types.Rune:\n\t\t\treturn \"rune\"\n\t\t}\n\t\treturn t.String()\n\tcase *types.Pointer:", Expect: "R15.4 abi.Builder.Str spells Rune"})
 	addMutant(Mutant{Prop: "C15", Name: "chandir-swapped", File: "ssa/abi/abi.go", Old: "\t\treturn abi.SendDir, \"chan<-\"", New: "\t\treturn abi.SendDir, \"<-chan\"", Expect: "R15.4 abi.ChanDir SendOnly"})
 	addMutant(Mutant{Prop: "C15", Name: "sliceof-wrong-flag", File: "ssa/expr.go", Old: "\tcase \"reflect.SliceOf\":\n\t\tpkg.NeedAbiInit |= ReflectSliceOf", New: "\tcase \"reflect.SliceOf\":\n\t\tpkg.NeedAbiInit |= ReflectStructOf", Expect: "R15.3 checkReflect reflect.SliceOf"})
